@@ -44,8 +44,7 @@ MANIFEST = {
 OPS = ("check", "compile_function", "compile")
 # faults that leave something behind when they fire (namespace, tracing state, partially
 # compiled dependencies) are drawn more often than plain type errors
-C11_MISTAKES = gen.MISTAKES + ("nested_recursive_body_fails",) * 3 + \
-    ("comptime_raises", "comptime_expr_raises", "assign_captured")
+C11_MISTAKES = gen.MISTAKES       # stratified over (case index, module), see run_case
 
 
 def warm() -> None:
@@ -344,6 +343,10 @@ def run_case(ch: Choices, params: dict) -> dict:
               "self_references": 0, "ops_vs_fresh_reference": 0, "ops_vs_first_occurrence": 0}
     # ---- raw history draws (resolved against the pool once it exists)
     n_ops = ch.rng_int(params.get("min_ops", 6), params.get("max_ops", 24), "n_ops")
+    if ch.draw(10, "short_history") < 7:
+        # most histories are short (more pools, more planted faults per run); the long
+        # ones are what makes session-global counters cross digit boundaries
+        n_ops = params.get("min_ops", 6) + n_ops % 70
     raw_hot = [ch.draw(64, "hot") for _ in range(3)]
     raw_history = [(ch.draw(64, "def"), ch.draw(3, "hot_i"), ch.draw(3, "use_hot") > 0,
                     ch.draw(6, "op"), ch.draw(4, "again")) for _ in range(n_ops)]
@@ -353,7 +356,7 @@ def run_case(ch: Choices, params: dict) -> dict:
     pool: list[tuple[int, str]] = []
     for mi in range(n_mod):
         mistake = None
-        if ch.draw(2, "has_fault") == 0:
+        if ch.draw(4, "has_fault") != 0:
             # the kind is stratified over (case index, module) so that a short or loaded
             # run still covers every kind; position, multiplicity and program are drawn
             ch.pick(C11_MISTAKES, "mistake")
